@@ -704,9 +704,11 @@ pub fn run(args: &Args) {
     rep.assume("binding property only: decided over the enumerated tamper space with the listed deterministic keys; nothing is claimed about other keys or about unforgeability");
     rep.assume("the claimed command id is an input only of the policy-level crypto::verify; at the aranya-crypto level the harness compares verify_cmd's returned id with the claimed id, as the statement's caller does");
     rep.assume("the key-id|name boundary cannot be re-cut through the API (the author field is a fixed 32-byte id derived from the verifying key); only name|parent|data re-cuts preserve the concatenation");
-    for c in ["accepted_untampered", "ffi_accepted_untampered", "rejected_by_auth", "ffi_rejected_after_parse", "boundary_recut_cases", "ffi_id_mismatch_cases", "p3_pair_changes"] {
-        rep.require_nonzero(c);
-    }
+    guards(
+        &mut rep,
+        &["signings", "crypto_verifications", "ffi_verifications", "p1_cross_cases", "p2_single_changes", "p3_pair_changes", "boundary_recut_cases", "ffi_id_mismatch_cases"],
+        &["accepted_untampered", "ffi_accepted_untampered", "rejected_by_auth", "ffi_rejected_after_parse"],
+    );
     rep.finish()
 }
 
